@@ -109,6 +109,11 @@ func RunUnjson(data string) UJResult {
 		r.V, r.S, r.G, r.J, r.R, r.RP = "-", "-", "-", "-", "-", "-"
 		return r
 	}
+	return consumers(e, r)
+}
+
+// consumers runs Validate and every consumer on an expression (shared by the uj and mk observations).
+func consumers(e *expr.Expression, r UJResult) UJResult {
 	r.Expr = e
 	r.V = guard(func() string {
 		if expr.Validate(e) != nil {
